@@ -1894,6 +1894,25 @@ func validateCount(sum float64, count uint64, negativeBuckets, positiveBuckets m
 	return nil
 }
 
+// validateBucketIndexes makes sure the bucket indexes can be encoded as spans,
+// whose offsets (the first index and the gaps between populated buckets) are
+// int32 in the exposition format.
+func validateBucketIndexes(buckets map[int]int64) error {
+	ii := make([]int, 0, len(buckets))
+	for k := range buckets {
+		ii = append(ii, k)
+	}
+	sort.Ints(ii)
+	nextI := 0
+	for _, i := range ii {
+		if d := int64(i) - int64(nextI); d > math.MaxInt32 || d < math.MinInt32 {
+			return fmt.Errorf("native histogram bucket index %d cannot be encoded as an int32 span offset", i)
+		}
+		nextI = i + 1
+	}
+	return nil
+}
+
 // NewConstNativeHistogram returns a metric representing a Prometheus native histogram with
 // fixed values for the count, sum, and positive/negative/zero bucket counts. As those parameters
 // cannot be changed, the returned value does not implement the Histogram
@@ -1937,6 +1956,12 @@ func NewConstNativeHistogram(
 		return nil, errors.New("invalid native histogram schema")
 	}
 	if err := validateCount(sum, count, negativeBuckets, positiveBuckets, zeroBucket); err != nil {
+		return nil, err
+	}
+	if err := validateBucketIndexes(negativeBuckets); err != nil {
+		return nil, err
+	}
+	if err := validateBucketIndexes(positiveBuckets); err != nil {
 		return nil, err
 	}
 
